@@ -106,6 +106,15 @@ def _ob_append(n0: int, n1: int, n2: int, n3: int, a0: int, a1: int, a2: int, a3
     if tuple(da.shape) != new:
         return False
     log = ds.node.oplog
+    if any(as_[d] == 0 for d in range(R)):
+        # a block without elements stores nothing: only the extents are observable (checked above);
+        # the backend calls may be skipped, but a call that IS made must be the right one
+        if len(log) == 0:
+            return True
+        if log[0] != ("resize", new) or len(log) > 2:
+            return False
+        if len(log) == 1:
+            return True
     if len(log) != 2 or log[0] != ("resize", new):
         return False
     kind, key, written = log[1]
